@@ -10,8 +10,8 @@ package host
 //@   requires set != nil
 //@   modifies nothing
 //@   ensures @members-non-nil forall k int :: 0 <= k && k < len(result) ==> result[k] != nil
-//@   ensures @is-the-cached-list typeis(aval[set.healthyCache], "[]*Host") ==> result == unbox(aval[set.healthyCache], "[]*Host")
-//@   established (*Set).buildHealthyCache Set.healthyCache @cache-members-non-nil typeis(aval[set.healthyCache], "[]*Host") ==> forall k int :: 0 <= k && k < len(unbox(aval[set.healthyCache], "[]*Host")) ==> unbox(aval[set.healthyCache], "[]*Host")[k] != nil
+//@   ensures @is-the-cached-list typeis(aval[set.healthyCache.Value], "[]*Host") ==> result == unbox(aval[set.healthyCache.Value], "[]*Host")
+//@   established (*Set).buildHealthyCache Set.healthyCache @cache-members-non-nil typeis(aval[set.healthyCache.Value], "[]*Host") ==> forall k int :: 0 <= k && k < len(unbox(aval[set.healthyCache.Value], "[]*Host")) ==> unbox(aval[set.healthyCache.Value], "[]*Host")[k] != nil
 
 //@ func (*Set).Random
 //@   prop C03 C15
@@ -47,10 +47,10 @@ package host
 //@   requires set != nil && set.healthyMain != nil && set.healthyBackup != nil
 //@   requires @tier-values-non-nil (forall a string :: has(set.healthyMain, a) ==> set.healthyMain[a] != nil) && (forall a string :: has(set.healthyBackup, a) ==> set.healthyBackup[a] != nil)
 //@   modifies aval
-//@   ensures @stores-a-host-list typeis(aval[set.healthyCache], "[]*Host")
-//@   ensures @cache-members-non-nil typeis(aval[set.healthyCache], "[]*Host") ==> forall k int :: 0 <= k && k < len(unbox(aval[set.healthyCache], "[]*Host")) ==> unbox(aval[set.healthyCache], "[]*Host")[k] != nil
-//@   ensures @cache-members-come-from-the-preferred-tier forall k int :: 0 <= k && k < len(unbox(aval[set.healthyCache], "[]*Host")) ==> exists a string :: has(tierof(set), a) && tierof(set)[a] == unbox(aval[set.healthyCache], "[]*Host")[k]
-//@   ensures @cache-has-one-entry-per-tier-member len(unbox(aval[set.healthyCache], "[]*Host")) == len(tierof(set))
+//@   ensures @stores-a-host-list typeis(aval[set.healthyCache.Value], "[]*Host")
+//@   ensures @cache-members-non-nil typeis(aval[set.healthyCache.Value], "[]*Host") ==> forall k int :: 0 <= k && k < len(unbox(aval[set.healthyCache.Value], "[]*Host")) ==> unbox(aval[set.healthyCache.Value], "[]*Host")[k] != nil
+//@   ensures @cache-members-come-from-the-preferred-tier forall k int :: 0 <= k && k < len(unbox(aval[set.healthyCache.Value], "[]*Host")) ==> exists a string :: has(tierof(set), a) && tierof(set)[a] == unbox(aval[set.healthyCache.Value], "[]*Host")[k]
+//@   ensures @cache-has-one-entry-per-tier-member len(unbox(aval[set.healthyCache.Value], "[]*Host")) == len(tierof(set))
 //@   loop 0 invariant (cap(keys) == 0 || fresh(keys)) && len(keys) <= len(hostMap) && hostMap == tierof(set) && forall i int :: 0 <= i && i < len(keys) ==> has(hostMap, keys[i])
 //@   loop 1 assume forall i int :: 0 <= i && i < len(keys) ==> has(hostMap, keys[i])
 //@   loop 1 invariant (cap(hosts) == 0 || fresh(hosts)) && len(hosts) == rangeindex + 1 && hostMap == tierof(set) && forall i int :: 0 <= i && i < len(hosts) ==> hosts[i] != nil && has(hostMap, keys[i]) && hosts[i] == hostMap[keys[i]]
